@@ -9,9 +9,10 @@ AlphaLines == <<"a", " ", "\n", "\"", "{">>
 AlphaInd   == <<"a", " ", "\n", "#">>
 AlphaInterp == <<"a", " ", "\"", "{", "}">>
 AlphaDoc == <<"\"\"\"", "a", " ", "\n">>
+AlphaILines == <<"a", "\n", "\"", "{", "}">>
 \* character classes: first / last letters and digits of each range, E (exponent), underscore, point, blank
 AlphaClasses == <<"a", "z", "A", "Z", "E", "_", "0", "9", ".", " ">>
-Alpha == CASE AlphaName = "full" -> AlphaFull [] AlphaName = "lines" -> AlphaLines [] AlphaName = "indent" -> AlphaInd [] AlphaName = "interp" -> AlphaInterp [] AlphaName = "doc" -> AlphaDoc
+Alpha == CASE AlphaName = "full" -> AlphaFull [] AlphaName = "lines" -> AlphaLines [] AlphaName = "indent" -> AlphaInd [] AlphaName = "interp" -> AlphaInterp [] AlphaName = "doc" -> AlphaDoc [] AlphaName = "ilines" -> AlphaILines
            [] AlphaName \in {"classes", "words"} -> AlphaClasses
 \* family "words": every word of the lexer's tables alone, and with a character of each class glued before / behind it
 WordInputs == AllWords \cup UNION { UNION { {<<c>> \o w, w \o <<c>>, w \o <<" ">> \o w} : c \in {"a", "Z", "_", "9", "E"} } : w \in AllWords }
